@@ -4,6 +4,7 @@ import os
 import re
 import subprocess
 import sys
+import time
 import tempfile
 
 from hypothesis import strategies as st
@@ -34,7 +35,7 @@ RULE = ("(a) Hypothesis token soup from an iCalendar dictionary (BEGIN:/END: wit
         "must serialise. Non-trivial: input that "
         "gets past the BEGIN of one component; distinct by hash of the input.")
 ASSUMPTIONS = ["inputs <= 8 KiB, nesting <= 64", "a CPU-time bound stands for 'terminates'"]
-REQUIRED_CLASSES = ["gen:soup", "gen:fixture", "gen:hostile", "gen:isolate", "isolate:unparsable-line", "isolate:parsable-line", "hostile:tzid", "hostile:vtimezone", "hostile:extreme"]
+REQUIRED_CLASSES = ["gen:soup", "gen:fixture", "gen:hostile", "gen:isolate", "isolate:unparsable-line", "isolate:parsable-line", "hostile:tzid", "hostile:vtimezone", "hostile:extreme", "config:python-O"]
 
 SHRINK_STRINGS = True
 TIMEOUT_S = 10.0
@@ -99,6 +100,9 @@ def total(data, multiple):
 
 
 def judge(case):
+    if case.get("interp") == "-O":       # configuration: an interpreter without assert statements (child process)
+        from vlib.runner import judge_under_python_O
+        return judge_under_python_O("c04_parse_total", case, timeout=600)
     if case["gen"] == "isolate":
         return judge_isolate(case)
     data = the_input(case)
@@ -106,7 +110,11 @@ def judge(case):
     for provider in sut.PROVIDERS:
         for multiple in (False, True):
             sut.reset(provider)
+            t0 = time.process_time()
             r = total(data, multiple)
+            if sys.flags.optimize and time.process_time() - t0 > 10:      # no watchdog in the -O child: same 10 CPU-second bound
+                fails.append(Failure("C04.terminates", "takes-more-than-10-cpu-seconds", f"provider={provider}: {time.process_time() - t0:.0f} s input={data[:300]!r}"))
+                return fails
             if r:
                 stage, e = r
                 fails.append(Failure("C04.total", f"{stage}-raises/" + exc_signature(e), f"provider={provider} multiple={multiple}: {e!r} input={data[:300]!r}"[:700]))
@@ -279,6 +287,8 @@ def info(case):
         data = data.encode("utf-8", "replace")
     if case["gen"] == "hostile":
         classes.append("hostile:" + case["what"])
+        if case.get("interp"):
+            classes.append("config:python-O")
     return {"nontrivial": bool(re.search(rb"(?i)begin\s*:\s*\w+\s*\n.", data, re.S)), "classes": classes}
 
 
@@ -331,8 +341,8 @@ HOSTILE_TZIDS = ["Europe", "..", "../../etc/passwd", "/etc/localtime", "/", "", 
 
 
 @st.composite
-def hostile_cases(draw):
-    what = draw(st.sampled_from(["tzid", "vtimezone", "vtimezone", "period", "nesting", "extreme", "extreme", "vtimezone-edge"]))
+def hostile_cases(draw, only=None):
+    what = draw(st.sampled_from(only or ["tzid", "vtimezone", "vtimezone", "period", "nesting", "extreme", "extreme", "vtimezone-edge"]))
     if what == "vtimezone-edge":
         # complete, well-formed definitions whose fields sit at the ends of their ranges (the definition is *interpreted*)
         obs = []
@@ -442,6 +452,7 @@ def streams(tier):
         Stream("mutated-fixtures", "hyp", n, 16, fixture_cases, timeout_s=10),
         Stream("structured-hostile", "hyp", n, 12, hostile_cases, timeout_s=10),
         Stream("isolation", "hyp", n // 2, 8, isolate_cases, timeout_s=10),
+        Stream("hostile-under-python-O", "hyp", 30 if tier == "quick" else 200, 16, lambda: st.one_of(hostile_cases(), hostile_cases(only=["vtimezone", "vtimezone-edge", "vtimezone-edge"]), hostile_cases(only=["vtimezone-edge"]), isolate_cases()).map(lambda c: dict(c, interp="-O")), timeout_s=600),
     ] + ([Stream("atheris-bytes", "custom", 0, 8, _atheris, timeout_s=10)] if tier == "thorough" else [])
 
 
